@@ -1,5 +1,6 @@
 import PqModel.Generated.Facts
 import PqModel.PageLoad
+import PqModel.PageReaders
 
 /-! # C13 — expectations about the facts `tools/factgen` extracts from file.go / writer.go
 
@@ -14,7 +15,7 @@ the allow-list of unverified loaders is EMPTY. A loader that forgets the compari
 `readDictionary` going back to a bare `io.ReadFull`) makes `loaders_verify` fail; a path of the mirror
 that no longer reaches its loader makes `mirror_matches_code` fail. -/
 namespace PqModel.Props.FactsCheckC13
-open PqModel.Generated.Facts PqModel.PageLoad
+open PqModel.Generated.Facts PqModel.PageLoad PqModel.PageReaders
 
 /-- known unverified page loaders: none (F4 was the only entry; repaired by 5000be7) -/
 def allowUnverified : List String := []
@@ -89,5 +90,130 @@ theorem writer_side_as_modelled :
                      ("ColumnWriter.writeDictionaryPage", "c.header.dict.CRC", "int32(buf.crc32())")] ∧
     crcWriteCovers.map (·.2) = ["wb.repetitions", "wb.definitions", "wb.page"] ∧
     pageHeaderCrcField = ("int32", "thrift:\"4,optional\"") := by decide
+
+/-! ## the callers of the page readers (family `pagereaders`)
+
+`pageReaderCalls` lists every call in the root package to a function through which a page-load error
+travels, with the decision list the caller's next statements form over the error (and page)
+variable. -/
+
+/-- **callers_hand_the_error_on**: at every call site of a page reader, a failure that is neither nil
+    nor io.EOF — with or without a page next to it — takes a branch that returns the error, returns
+    it wrapped, or sends it to the consumer goroutine; no call drops its error result, none decides on
+    a condition about something else. Fails for seeded/C13-3a (`f.readDictionary()` as a statement:
+    form "discard") and seeded/C13-3b (`if p != nil { return p, err }`: the guard is false for a
+    failure that comes with a nil page). Not vacuous: the table has the 21 known sites. -/
+theorem callers_hand_the_error_on :
+    pageReaderCalls.all propagates = true ∧ pageReaderCalls.length = 21 := by decide
+
+/-- the functions that call a page reader are exactly these (a new caller has to be looked at and
+    given an access path in the fault enumeration; a vanished one means the mirror is stale) -/
+theorem reader_callers_known :
+    (pageReaderCalls.map (·.1)).eraseDups =
+      ["CopyPages", "FilePages.ReadDictionary", "FilePages.ReadPage", "FilePages.readDataPageV1",
+       "FilePages.readDataPageV2", "FilePages.readDictionary", "FilePages.readPageInSequence",
+       "PrintColumnChunk", "columnChunkValueReader.ReadValues", "columnPages.ReadPage",
+       "convertedPages.ReadPage", "missingPageValues.readWithAdjacent", "multiPages.ReadPage",
+       "rangePages.ReadPage", "readPages", "variantLeafReader.ensurePage"] := by decide
+
+/-- the guard of the returning branch of a concatenating reader, as extracted -/
+def returnGuardOf (fn : String) : Option (List String) :=
+  match pageReaderCalls.find? (fun s => s.1 == fn && s.2.1 == "ReadPage") with
+  | some (_, _, _, (g, "return-err") :: _) => some g
+  | _ => none
+
+/-- MIRROR of `if err == nil || err != io.EOF { return p, err }` (column.go:127, multi_row_group.go:552) -/
+def concatGuardRPN : List String := ["err==nil", "err!=EOF", "or"]
+
+/-- the guard as a function of the situation -/
+def concatGuard (s : Sit) : Bool := holds s concatGuardRPN == some true
+
+/-- both concatenating readers return under exactly that guard in the source -/
+theorem concat_guards_as_mirrored :
+    returnGuardOf "columnPages.ReadPage" = some concatGuardRPN ∧
+    returnGuardOf "multiPages.ReadPage" = some concatGuardRPN := by decide
+
+/-- and that guard returns pages, returns failures, and moves on at io.EOF -/
+theorem concatGuard_good : GoodGuard concatGuard :=
+  ⟨fun _ => by simp only [sitOf]; decide, fun _ => by simp only [sitOf]; decide, by decide⟩
+
+/-- the access paths of the fault enumeration above `FilePages` and the callers of page readers the
+    error crosses on each (hand-written; `entry_chains_cover_the_callers` ties it to the table) -/
+def entryChains : List (String × List String) := [
+  ("pages-seq / pages-seek / rows-* / generic-* / read-func / reader-* / rowgroup-reader / copy-rows",
+    ["FilePages.ReadPage", "FilePages.readPageInSequence", "FilePages.readDataPageV1", "FilePages.readDataPageV2",
+     "FilePages.readDictionary", "columnChunkValueReader.ReadValues"]),
+  ("read-dictionary", ["FilePages.ReadDictionary", "FilePages.readDictionary"]),
+  ("column-pages-seq / column-pages-seek", ["columnPages.ReadPage"]),
+  ("multi-rows-* / multi-pages-seq / merge-rows-seq / reader-* on several row groups", ["multiPages.ReadPage"]),
+  ("convert-rows-seq", ["convertedPages.ReadPage", "missingPageValues.readWithAdjacent"]),
+  ("async-* / async-pages-wrap", ["readPages"]),
+  ("copy-pages", ["CopyPages"]),
+  ("print-chunk", ["PrintColumnChunk"]),
+  ("value-reader-seq / value-reader-seek", ["columnChunkValueReader.ReadValues"]),
+  ("(range views of merged row groups: C08/C09 generators; variant readers: C19)",
+    ["rangePages.ReadPage", "variantLeafReader.ensurePage"])]
+
+/-- every caller in the table is on the chain of some access path, and every function named in a
+    chain is a caller in the table -/
+theorem entry_chains_cover_the_callers :
+    (pageReaderCalls.map (·.1)).all (fun fn => entryChains.any (·.2.contains fn)) = true ∧
+    entryChains.all (fun c => c.2.all (fun fn => (pageReaderCalls.map (·.1)).contains fn)) = true := by decide
+
+/-! ## one layer further up: the callers of value / row readers (`rowReaderCalls`)
+
+OPEN: "every call to `ReadValues` / `ReadRows` / `readRows` hands a failure on". Not provable from a
+per-block decision list: several callers leave their loop on an error and return it afterwards, or
+store it in a field (`rowGroupRows.ReadRows`: `r.err = err`) and report it on the next call; a few are
+in-memory readers no page-load error reaches. What is checked instead is the verdict of every site in
+the situation "failure, nothing delivered" — pinned, so that a site turning from handing the error
+on to swallowing it (or a new caller) breaks this obligation; the sites that leave the loop or are
+unresolved are tied by L1 only (`rows-*`, `generic-*`, `reader-*`, `copy-rows`, `value-reader-*`). -/
+
+def verdictName : Verdict → String
+  | .handsOn => "hands-on" | .swallows => "swallows" | .leaves => "leaves-loop" | .unresolved => "unresolved"
+
+def siteVerdict (site : Site) : String :=
+  let form := site.2.2.1
+  if form = "tail" then "hands-on"
+  else if form = "assign" || form = "if-init" then verdictName (verdict (failed true) site.2.2.2)
+  else form
+
+theorem row_reader_verdicts_partial :
+    rowReaderCalls.map (fun s => (s.1, s.2.1, siteVerdict s)) = [
+      ("GenericReader.ReadRows", "ReadRows", "hands-on"),
+      ("GenericReader.readRows", "ReadRows", "leaves-loop"),
+      ("PrintRowGroup", "ReadRows", "hands-on"),
+      ("Reader.Read", "ReadRows", "hands-on"),
+      ("Reader.ReadRows", "ReadRows", "hands-on"),
+      ("bufferedRowReader.read", "ReadRows", "swallows"),
+      ("bufferedRowReader.read", "ReadRows", "leaves-loop"),
+      ("columnChunkValueReader.ReadValues", "ReadValues", "hands-on"),
+      ("concatenatingRows.ReadRows", "ReadRows", "hands-on"),
+      ("concatenatingRowsWrapper.ReadRows", "ReadRows", "hands-on"),
+      ("concatenatingRowsWrapper.SeekToRow", "ReadRows", "hands-on"),
+      ("convertedRows.ReadRows", "ReadRows", "hands-on"),
+      ("convertedValueReader.ReadValues", "ReadValues", "hands-on"),
+      ("copyColumnValues", "ReadValues", "unresolved"),
+      ("copyRows", "ReadRows", "hands-on"),
+      ("copyValues", "ReadValues", "hands-on"),
+      ("decimalPage.Bounds", "ReadValues", "leaves-loop"),
+      ("dedupeRowReader.ReadRows", "ReadRows", "hands-on"),
+      ("filterRowReader.ReadRows", "ReadRows", "leaves-loop"),
+      ("forwardRowSeeker.ReadRows", "ReadRows", "hands-on"),
+      ("geospatialBBoxAccumulator.accumulatePage", "ReadValues", "leaves-loop"),
+      ("mergedRowGroupRows.ReadRows", "ReadRows", "hands-on"),
+      ("mergedRowGroupRows.ReadRows", "ReadRows", "hands-on"),
+      ("missingPageValues.readWithAdjacent", "ReadValues", "hands-on"),
+      ("optionalPageValues.ReadValues", "ReadValues", "hands-on"),
+      ("printPage", "ReadValues", "swallows"),
+      ("readRowsFuncOfLeaf", "ReadValues", "other:col.reader.ReadValues(buf)"),
+      ("readRowsFuncOfLeaf", "ReadValues", "other:col.reader.ReadValues(buf)"),
+      ("reader.ReadRows", "ReadRows", "hands-on"),
+      ("repeatedPageValues.ReadValues", "ReadValues", "hands-on"),
+      ("rowGroupRows.ReadRows", "ReadValues", "swallows"),
+      ("scanRowReader.ReadRows", "ReadRows", "hands-on"),
+      ("transformRowReader.ReadRows", "ReadRows", "hands-on"),
+      ("variantLeafReader.extractBooleans", "ReadValues", "hands-on")] := by decide
 
 end PqModel.Props.FactsCheckC13
